@@ -147,7 +147,11 @@ def check_reactive(ctx, batch, inp):
     from flexstack.management.dcc_reactive import DccReactive, DccState
     t_on, start, cbrs = inp["t_on"], inp["start"], inp["cbrs"]
     tid = table_id(t_on)
-    dcc = DccReactive() if t_on is None else DccReactive(t_on_max_us=t_on)
+    try:
+        dcc = DccReactive() if t_on is None else DccReactive(t_on_max_us=t_on)
+    except Exception as e:  # noqa: BLE001 - not a clause of the property: a broken tie (the model constructs for every number)
+        ctx.mismatch("DccReactive(t_on_max_us) constructs", inp, "constructed", f"{type(e).__name__}: {e}")
+        return []
     if start != 0:
         dcc.state = DccState(start)
     elif dcc.state.value != 0:
@@ -1105,7 +1109,10 @@ def run(ctx):
         "seeded periodic / Poisson / burst / sparse arrival patterns with transmission durations 20 us..4 ms (and "
         "extremes, invalid values) and delta updates every 200 ms or at random times (also from a live DccAdaptive), "
         "time stamps below 64 s and epoch-sized, adversarial arrivals / updates placed within nanoseconds of the "
-        "implementation's own t_go, t_pg + 25 ms, t_pg + 1 s. A case is non-trivial when the evaluation was "
+        "implementation's own t_go, t_pg + 25 ms, t_pg + 1 s. Audit round: CBR as int / bool, float constructor "
+        "arguments around the table switch, default-parameter runs into the upper clamp, evaluations from stored states "
+        "(delta at / next to / outside the bounds, CBR_ITS-S at the target), gate time axes that cross zero (t_pg / t_go "
+        "exactly 0.0, negative), uptime-sized time stamps 1e3..1e7 s, int arguments. A case is non-trivial when the evaluation was "
         "accepted (reactive, adaptive) or the packet was admitted (gate); distinct by (table, state, cbr) / "
         "(state, inputs, parameters) / (time, t_on, delta).")
     batch = Batch(ctx)
